@@ -2,6 +2,7 @@ package main
 
 import (
 	"verifharness/internal/cors"
+	"verifharness/internal/mime"
 	"verifharness/internal/report"
 	"verifharness/internal/serve"
 )
@@ -86,6 +87,15 @@ func init() {
 		}
 		// the filters the framework ships are part of "the response": histories through one CORS filter
 		// value (computed methods, preflights for different URLs) against fresh replays
-		return cors.CheckPurity(run, n/2)
+		if err := cors.CheckPurity(run, n/2); err != nil {
+			return err
+		}
+		// content negotiation with and without trace logging (the serve scripts write bytes, not entities)
+		if err := mime.CheckTracePurity(run, 2*n); err != nil {
+			return err
+		}
+		// batches biased towards what overlapping requests can disturb (several passing container
+		// filters, a filter on every service), held together after routing and released
+		return serve.CheckConcurrent(run, serve.PropSpec{ID: "C19", Proj: serve.ProjAllButLedger}, serve.GenOpts{Router: "curly", PanicPct: 1}, n, 6)
 	}
 }
